@@ -10,7 +10,7 @@ records the exception type and whether the merge reached the mismatching positio
 
 import copy
 
-from .. import observe as O, spec as S
+from .. import observe as O, refmodel as R, spec as S
 from . import common as C
 
 ID = "C10"
@@ -45,6 +45,17 @@ def setup(tier):
     C.setup_probes()
 
 
+SIBLING = {"Label": "UntypedLabel", "UntypedLabel": "Label", "Index": "Branch", "Branch": "Index", "IrregularlyBin": "Stack", "Stack": "IrregularlyBin"}
+
+
+def _sibling_ok(n):
+    if n["k"] == "UntypedLabel":
+        return len({S.describe(v).split("(")[0] for v in n["pairs"].values()}) == 1
+    if n["k"] == "Branch":
+        return len({S.describe(v).split("(")[0] for v in n["values"]}) == 1
+    return True
+
+
 def mutate_spec(rng, sp):
     """Return (mutated spec, description, path) differing from sp in one structural parameter."""
     nodes = list(S.walk(sp))
@@ -60,7 +71,12 @@ def mutate_spec(rng, sp):
             nk = rng.choice(others)
             m = S.default_child(nk, rng, {})
             desc = "type %s -> %s" % (k, m["k"])
-        elif choice < 0.33:
+        elif choice < 0.31 and k in SIBLING and _sibling_ok(n):
+            # the sibling type with the very same parameters and children (the two share one JSON layout):
+            # only the type tells them apart
+            m["k"] = SIBLING[k]
+            desc = "sibling type %s -> %s" % (k, m["k"])
+        elif choice < 0.38:
             # the same node behind a wrapper (Select forwards unknown attributes to its cut, so a duck-typed merge
             # would find every attribute it looks for), or a wrapper removed
             if k == "Select":
@@ -240,9 +256,80 @@ def _built_case(i, rng, tier):
     }
 
 
+def _sibling_case(i, rng, tier):
+    """Pairs of sibling types that share one JSON layout (IrregularlyBin / Stack, Label / UntypedLabel, Index / Branch)
+    with identical parameters and children that the library re-classes for plotting (Bin / SparselyBin of Count, bare or
+    behind a Select), in every combination of live / reloaded / reloaded-and-scaled operands: only the type differs, and
+    every merge must raise."""
+    import copy
+
+    inner = rng.choice([
+        {"k": "Bin", "num": 3, "low": 0.0, "high": 3.0, "f": "x", "qf": "lambda", "value": {"k": "Count"}, "under": {"k": "Count"}, "over": {"k": "Count"}, "nan": {"k": "Count"}},
+        {"k": "SparselyBin", "bw": 1.0, "origin": 0.0, "f": "x", "qf": "lambda", "value": {"k": "Count"}, "nan": {"k": "Count"}},
+        {"k": "Count"},
+        {"k": "Sum", "f": "y", "qf": "lambda"},
+    ])
+    if inner["k"] in ("Bin", "SparselyBin") and rng.random() < 0.4:
+        inner = {"k": "Select", "f": "p", "qf": "lambda", "cut": inner}
+    fam = rng.choice(["IrregularlyBin", "Label", "Index"])
+    if fam == "IrregularlyBin":
+        sp = {"k": "IrregularlyBin", "f": "y", "qf": "lambda", "edges": [0.0, 1.0], "value": inner, "nan": {"k": "Count"}}
+    elif fam == "Label":
+        sp = {"k": "Label", "pairs": {"a": inner, "b": copy.deepcopy(inner)}}
+    else:
+        sp = {"k": "Index", "values": [inner, copy.deepcopy(inner)]}
+    sp2 = copy.deepcopy(sp)
+    sp2["k"] = SIBLING[sp["k"]]
+    if rng.random() < 0.5:
+        sp, sp2 = sp2, sp
+    if rng.random() < 0.4:
+        sp, sp2 = ({"k": "Label", "pairs": {"m": s_}} for s_ in (sp, sp2))
+    sa = S.gen_stream(rng, sp, rng.choice([0, 3, 6]), {"nonpos_p": 0.0})
+    sb = S.gen_stream(rng, sp2, rng.choice([0, 3, 6]), {"nonpos_p": 0.0})
+    failures, counters = [], {}
+    wit = {"tree": S.describe(sp), "other": S.describe(sp2), "spec": sp, "spec2": sp2, "stream_a": C.stream_json(sa), "stream_b": C.stream_json(sb)}
+
+    def derive(x, how):
+        if "reload" in how:
+            x = x.toImmutable()
+        if "scale" in how:
+            x = x * 2.0
+        return x
+
+    for ha in ("live", "reload", "reload+scale"):
+        for hb in ("live", "reload"):
+            for op, order in (("+", "ab"), ("+", "ba"), ("+=", "ab"), ("+=", "ba")):
+                a = derive(C.fill_all(S.build(sp), sa), ha)
+                b = derive(C.fill_all(S.build(sp2), sb), hb)
+                x, y = (a, b) if order == "ab" else (b, a)
+                ty = O.text(y)
+                try:
+                    if op == "+":
+                        x + y
+                    else:
+                        x += y
+                    raised = False
+                except Exception:  # noqa: BLE001
+                    raised = True
+                counters["sibling_merges_attempted"] = counters.get("sibling_merges_attempted", 0) + 1
+                counters["merges_attempted"] = counters.get("merges_attempted", 0) + 1
+                if not raised:
+                    failures.append(C.fail(None, "merge of sibling types (%s %s %s, operands %s / %s, order %s) returned instead of raising" % (sp["k"], op, sp2["k"], ha, hb, order), op=op, order=order, states=[ha, hb], **wit))
+                elif O.text(y) != ty:
+                    failures.append(C.fail(None, "rejected merge of sibling types changed its right operand", op=op, order=order, **wit))
+    return {
+        "digest": C.digest(sp, sp2, wit["stream_a"], wit["stream_b"]),
+        "nontrivial": True,
+        "failures": failures[:4],
+        "counters": counters,
+        "sets": {"mutation": {"sibling layout"}, "kinds": S.kinds_in(sp), "depth": {"0"}},
+        "sample": {"stratum": "sibling-layout", "tree": S.describe(sp), "other": S.describe(sp2)},
+    }
+
+
 def run_case(i, rng, tier):
     if i % 20 == 19:
-        return _built_case(i, rng, tier)
+        return _built_case(i, rng, tier) if (i // 20) % 2 == 0 else _sibling_case(i, rng, tier)
     label, sp = C.pick_spec(i, rng, tier)
     sp2, desc, path = mutate_spec(rng, sp)
     if sp2 is None:
@@ -298,7 +385,9 @@ def run_case(i, rng, tier):
         if reload_a or reload_b:
             # after a reload an empty sparse container only knows the type name of its bins: demand rejection
             # only where the difference is still present in the state of the operands
-            da, db = O.observe(a), O.observe(b)
+            # decided on the documents the *specification* assigns to the two states (reference model), not on what
+            # the code under test serialises: a reload that comes back as another type must not excuse itself
+            da, db = O.canon(R.ref_doc(sp, sa)), O.canon(R.ref_doc(sp2, sb))
             if not (da["type"] != db["type"] or _sig_differs(_sig(da["type"], da["data"]), _sig(db["type"], db["data"]))):
                 counters["difference_not_in_reloaded_state"] = counters.get("difference_not_in_reloaded_state", 0) + 1
                 continue
@@ -363,6 +452,8 @@ def conclusive(agg):
     out = []
     if not agg.counters.get("merges_attempted"):
         out.append("no merge attempted")
+    if not agg.counters.get("sibling_merges_attempted"):
+        out.append("no merge of sibling-layout pairs attempted")
     if not agg.counters.get("built_merges_attempted"):
         out.append("no merge of Stack.build / Fraction.build operands attempted")
     for d in ("0", "1", "2"):
